@@ -93,7 +93,20 @@ package magic
 //@ spec noCR(l) = ite(len(l) > 0 && l[len(l)-1] == '\r', len(l) - 1, len(l))
 //@ spec lineOK(l) = len(l) == 0 || parseComplete(l)
 
+// nLines(s): number of lines of s; nOA(s): number of those whose first non-space byte opens an
+// object or array (same recursion on the first line as linesOK; trusted spec).
+//@ ghostfun nLines(bytes) int
+//@ ghostfun nOA(bytes) int
+//@ spec oa(l) = ite(startsContainer(l), 1, 0)
+
 //@ func magic.NdJSON
+//@   assume [N0] forall o :: forall n :: n <= 0 ==> nLines(view(raw, o, n)) == 0 && nOA(view(raw, o, n)) == 0
+//@   assume [N1] forall o :: forall n :: forall i :: 0 <= i && i < n && view(raw, o, n)[i] == '\n' && (forall k :: 0 <= k && k < i ==> view(raw, o, n)[k] != '\n') ==> nLines(view(raw, o, n)) == 1 + nLines(view(raw, o + i + 1, n - i - 1)) && nOA(view(raw, o, n)) == oa(view(raw, o, noCR(view(raw, o, i)))) + nOA(view(raw, o + i + 1, n - i - 1))
+//@   assume [N2] forall o :: forall n :: 0 < n && (forall k :: 0 <= k && k < n ==> view(raw, o, n)[k] != '\n') ==> nLines(view(raw, o, n)) == 1 && nOA(view(raw, o, n)) == oa(view(raw, o, noCR(view(raw, o, n))))
+//@   ensures [C13_ndjson_two_lines] result ==> nLines(dropped) >= 2
+//@   ensures [C13_ndjson_one_container] result ==> nOA(dropped) >= 1
+//@   loop 1 invariant [C13_count_inv] nLines(dropped) == lCount + nLines(raw)
+//@   loop 1 invariant [C13_oa_inv] nOA(dropped) == objOrArr + nOA(raw)
 //@   assume [L0] forall o :: forall n :: n <= 0 ==> linesOK(view(raw, o, n))
 //@   assume [L1] forall o :: forall n :: forall i :: 0 <= i && i < n && view(raw, o, n)[i] == '\n' && (forall k :: 0 <= k && k < i ==> view(raw, o, n)[k] != '\n') ==> (linesOK(view(raw, o, n)) == (lineOK(view(raw, o, noCR(view(raw, o, i)))) && linesOK(view(raw, o + i + 1, n - i - 1))))
 //@   assume [L2] forall o :: forall n :: 0 < n && (forall k :: 0 <= k && k < n ==> view(raw, o, n)[k] != '\n') ==> (linesOK(view(raw, o, n)) == lineOK(view(raw, o, noCR(view(raw, o, n)))))
